@@ -361,7 +361,9 @@ class C15(Prop):
         if via == 'names':
             if any(all(r[j] is None for r in rows) for j in range(len(names))):
                 return src                      # a column without any value: its type cannot be inferred (no frame is obtained)
-            return dict(src, via='names')
+            # tuples with a list of column names - or records that carry field names of their own (Row objects), which the list
+            # of names replaces position by position
+            return dict(src, via='names', records=rng.choice(['tuples', 'tuples', 'rows']), parts=1)
         if via == 'rows' and rng.random() < .4:
             return dict(src, via='rows', explicit=True, parts=1)
         absent = [[j for j, v in enumerate(r) if v is None and via == 'hetero' and rng.random() < .7] for r in rows]
@@ -447,6 +449,10 @@ class C15(Prop):
             return self.spark.createDataFrame([Row(**{n: v for j, (n, v) in enumerate(zip(t['names'], r)) if j not in ab})
                                                for r, ab in zip(rows, absent)])
         if t.get('via') == 'names':
+            if t.get('records') == 'rows':
+                from pysparkling.sql.types import Row
+                own = ['f%02d' % j for j in range(len(t['names']))]      # (sorted order = positional order)
+                return self.spark.createDataFrame([Row(**dict(zip(own, r))) for r in rows], list(t['names']))
             return self.spark.createDataFrame([tuple(r) for r in rows], list(t['names']))
         if t.get('via') == 'ragged':
             data = [tuple(r[:len(r) - k]) for r, k in zip(rows, t['short'])]
@@ -595,7 +601,7 @@ class C15(Prop):
                                 'appearance, values placed by name, missing fields null)', {'columns': prev['columns'], 'rows': prev['rows']},
                                 r, 'C15:model:fromRows', relation='model-only')
         elif src.get('via'):
-            ctx.note('source:' + src['via'])
+            ctx.note('source:' + src['via'] + (':' + src['records'] if src.get('records') else ''))
         def max_col(a):
             if isinstance(a, dict):
                 own = [a['i']] if a.get('op') == 'col' and isinstance(a.get('i'), int) else []
